@@ -271,14 +271,14 @@ def fn_bodies(t):
     return out
 
 
-def k_rename_locals(t):
+def k_rename_locals(t, binder=r"let (?:mut )?"):
     """one edit per local `let` variable: every occurrence of the name inside the enclosing function body"""
     res = []
     end = production_end(t)
     for (s, e) in fn_bodies(t[:end]):
         body = t[s:e]
         names = []
-        for m in re.finditer(r"\blet (?:mut )?(?!mut\b)([a-z_][a-z_0-9]{1,})\b", body):
+        for m in re.finditer(r"\b" + binder + r"(?!mut\b)([a-z_][a-z_0-9]{1,})\b", body):
             if m.group(1) not in names:
                 names.append(m.group(1))
         sig_start = t.rfind("fn ", 0, s)
@@ -286,7 +286,7 @@ def k_rename_locals(t):
             if re.search(r"\b%s\b" % re.escape(n), t[sig_start:s]):
                 continue   # shadows a parameter: renaming every occurrence in the body would not be the same program
             first = re.search(r"(?<!\w)(?<![^.]\.)%s\b" % re.escape(n), body)
-            if first and not re.search(r"\blet (?:mut )?(?:\([^()]*)?$", body[:first.start()]):
+            if first and not re.search(r"\b" + binder + r"(?:\([^()]*)?$", body[:first.start()]):
                 continue   # used before this `let`: it shadows something else
             if re.search(r"(\{|,)\s*%s\s*(,|\})" % re.escape(n), body) or re.search(r"\b%s:" % re.escape(n), body) or re.search(r"\|[^|]*\b%s\b[^|]*\|" % re.escape(n), body):
                 continue   # struct shorthand / field label / closure parameter of the same name: not a plain local
@@ -302,14 +302,26 @@ def k_rename_locals(t):
     return res
 
 
+def k_rename_loop_vars(t):
+    """one edit per `for x in` variable: every occurrence of the name inside the enclosing function body"""
+    return [(a, b, "loop variable " + c) for a, b, c in k_rename_locals(t, binder=r"for ") + k_rename_locals(t, binder=r"for \((?:\w+, )?")]
+
+
 def k_rename_closure_params(t):
+    """one edit per closure with a single plain parameter: the parameter and its uses through the whole closure"""
+    import localnames
+    mk = localnames._mask(t, facts._segments)
     res = []
-    for a, b, m in code_sites(t, r"\|([a-z_][a-z_0-9]*)\| ([^\n{};]*?)(?=[,;)\n])"):
-        n = m.group(1)
-        if n == "_" or not re.search(r"\b%s\b" % re.escape(n), m.group(2)):
+    end = production_end(t)
+    for (a0, pe, ce, names) in localnames._closures(mk[:end]):
+        if len(names) != 1 or names[0] == "_" or not re.fullmatch(r"\|[a-z_][a-z_0-9]*\|", mk[a0:pe]):
             continue
-        new = "|%s_p| %s" % (n, re.sub(r"(?<!\w)(?<![^.]\.)%s\b" % re.escape(n), n + "_p", m.group(2)))
-        res.append((a, b, new))
+        n = names[0]
+        body = mk[pe:ce]
+        if not re.search(r"\b%s\b" % re.escape(n), body) or re.search(r"\b%s\s*:(?!:)" % re.escape(n), body) or re.search(r"[{,]\s*%s\s*[,}]" % re.escape(n), body):
+            continue
+        edits = [(a0 + m.start(), a0 + m.end(), n + "_p") for m in re.finditer(r"(?<!\w)(?<![^.]\.)%s\b" % re.escape(n), mk[a0:ce])]
+        res.append(("multi", edits, "closure parameter " + n))
     return res
 
 
@@ -325,6 +337,7 @@ KINDS = {
     "b:block-comments": k_block_comments,
     "c:rename-local": k_rename_locals,
     "c:rename-closure-param": k_rename_closure_params,
+    "c:rename-loop-var": k_rename_loop_vars,
     "d:is_empty->len==0": k_is_empty_to_len,
     "d:len==0->is_empty": k_len_to_is_empty,
     "d:flip-comparison": k_flip_comparison,
